@@ -64,6 +64,67 @@ Lemma written_indexed_or_wip_lemma es s :
   run init es = Some s -> forall t pk, In (t, pk) (written s) -> In (t, pk) (idx s) \/ wip (get s t) = Some pk.
 Proof. intros R. apply (inv_written s (run_inv es init s inv_init R)). Qed.
 
+(* every pack the indexer holds was written before *)
+Lemma step_idx_written s e s' :
+  (forall t pk, In (t, pk) (idx s) -> In (t, pk) (written s)) ->
+  (forall t pk, wip (get s t) = Some pk -> In (t, pk) (written s)) ->
+  step s e = Some s' ->
+  (forall t pk, In (t, pk) (idx s') -> In (t, pk) (written s')) /\
+  (forall t pk, wip (get s' t) = Some pk -> In (t, pk) (written s')).
+Proof.
+  intros HI HW St. destruct e as [t i|t n|t|t|t]; cbn [step] in St.
+  - injection St as <-. destruct (set_fields s t (with_inflight (get s t) (inflight (get s t) ++ [(i, 0)]))) as (Fw & Fi & _ & _).
+    split; intros t0 pk H; cbn [written idx] in *.
+    + rewrite Fw. apply HI. rewrite <- Fi. exact H.
+    + rewrite Fw. apply HW. rewrite get_mk in H. destruct t, t0; cbn in *; exact H.
+  - destruct (nth_error (inflight (get s t)) n) as [[i stg]|]; [|discriminate].
+    assert (G : forall q, wip q = wip (get s t) ->
+       (forall t0 pk, In (t0, pk) (idx (set s t q)) -> In (t0, pk) (written (set s t q))) /\
+       (forall t0 pk, wip (get (set s t q) t0) = Some pk -> In (t0, pk) (written (set s t q)))).
+    { intros q Hq. destruct (set_fields s t q) as (Fw & Fi & _ & _). split; intros t0 pk H.
+      - rewrite Fw. apply HI. rewrite <- Fi. exact H.
+      - rewrite Fw. apply HW. destruct t, t0; cbn in *; try exact H; rewrite <- Hq; exact H. }
+    destruct stg as [|[|[|[|stg]]]]; try destr_if; injection St as <-; apply G; reflexivity.
+  - destruct (cur (get s t)); [discriminate|]. destr_if; [|discriminate]. injection St as <-.
+    destruct (set_fields s t {| inflight := inflight (get s t); cur := []; wq := wq (get s t) ++ [i :: l]; wip := wip (get s t) |}) as (Fw & Fi & _ & _).
+    split; intros t0 pk H.
+    + rewrite Fw. apply HI. rewrite <- Fi. exact H.
+    + rewrite Fw. apply HW. destruct t, t0; cbn in *; exact H.
+  - destruct (wip (get s t)) eqn:W; [discriminate|]. destruct (wq (get s t)) as [|pk0 rest] eqn:Q; [discriminate|].
+    injection St as <-.
+    destruct (set_fields s t {| inflight := inflight (get s t); cur := cur (get s t); wq := rest; wip := Some pk0 |}) as (Fw & Fi & _ & _).
+    split; intros t0 pk H; cbn [written idx] in *.
+    + rewrite Fw. apply in_or_app. left. apply HI. rewrite <- Fi. exact H.
+    + rewrite Fw. rewrite get_mk in H. destruct t, t0; cbn in H.
+      * injection H as <-. apply in_or_app. right. left. reflexivity.
+      * apply in_or_app. left. apply HW. exact H.
+      * apply in_or_app. left. apply HW. exact H.
+      * injection H as <-. apply in_or_app. right. left. reflexivity.
+  - destruct (wip (get s t)) as [pk0|] eqn:W; [|discriminate]. injection St as <-.
+    destruct (set_fields s t {| inflight := inflight (get s t); cur := cur (get s t); wq := wq (get s t); wip := None |}) as (Fw & Fi & _ & _).
+    split; intros t0 pk H; cbn [written idx] in *.
+    + rewrite Fw. rewrite Fi in H. apply in_app_or in H. destruct H as [H|[H|[]]].
+      * apply HI. exact H.
+      * injection H as <- <-. apply HW. exact W.
+    + rewrite Fw. rewrite get_mk in H. destruct t, t0; cbn in H; try discriminate; apply HW; exact H.
+Qed.
+
+Lemma indexed_written_lemma es s :
+  run init es = Some s -> forall t pk, In (t, pk) (idx s) -> In (t, pk) (written s).
+Proof.
+  assert (G : forall es s0 s1,
+    (forall t pk, In (t, pk) (idx s0) -> In (t, pk) (written s0)) ->
+    (forall t pk, wip (get s0 t) = Some pk -> In (t, pk) (written s0)) ->
+    run s0 es = Some s1 -> forall t pk, In (t, pk) (idx s1) -> In (t, pk) (written s1)).
+  { induction es0 as [|e es0 IH]; intros s0 s1 HI HW R; cbn in R.
+    - injection R as <-. exact HI.
+    - destruct (step s0 e) as [s2|] eqn:St; [|discriminate].
+      destruct (step_idx_written s0 e s2 HI HW St) as [HI2 HW2]. eapply IH; eassumption. }
+  intro R. eapply G; [| |exact R].
+  - intros t pk []. 
+  - intros t pk H. destruct t; discriminate.
+Qed.
+
 (* the history of requests depends on the Send events only *)
 Fixpoint sends (es : list ev) : list (bt * id) :=
   match es with
